@@ -708,6 +708,15 @@ class SourceHandler:
                 self._params.closure_requested
                 or self.transmission_mode == TransmissionMode.ACKNOWLEDGED
             ):
+                if self.transmission_mode == TransmissionMode.UNACKNOWLEDGED:
+                    # Closure requested: Like after the EOF PDU of a file transfer, do not wait
+                    # for the Finished PDU for ever.
+                    assert self._params.remote_cfg is not None
+                    self._params.check_timer = self.check_timer_provider.provide_check_timer(
+                        local_entity_id=self.cfg.local_entity_id,
+                        remote_entity_id=self._params.remote_cfg.entity_id,
+                        entity_type=EntityType.SENDING,
+                    )
                 self.states.step = TransactionStep.WAITING_FOR_FINISHED
             else:
                 self.states.step = TransactionStep.NOTICE_OF_COMPLETION
